@@ -349,7 +349,7 @@ func c07ErrOwner(c *Ctx) {
 			}
 		}
 	}
-	c.Floor("references to timeout.ErrExceeded", n, 3)
+	c.Floor("references to timeout.ErrExceeded", n, 2)
 	if ok {
 		c.Ok("timeout.ErrExceeded#references", "", fmt.Sprintf("%d references: timer callback, IsFailure and the variable's initialiser only", n))
 	}
